@@ -397,7 +397,8 @@ class PanicAnalysis:
                 return ("LIB", "tokio::select! internals")
             return None
         for rule in (self._supp_rule, self._select_rule, self._peer_rule, self._exh_rule, self._ser_rule,
-                     self._const_rule, self._guard_rule, self._env_rule, self._auth_rule):
+                     self._const_rule, self._guard_rule, self._bound_rule, self._env_rule, self._prologue_rule,
+                     self._auth_rule):
             if rule in (self._select_rule, self._peer_rule):
                 r = rule(s, actor_status)
             else:
@@ -611,7 +612,11 @@ class PanicAnalysis:
         if payload is None:
             return allv
         ctx = self.env.ctx(f)
-        n = ctx.origin_node(payload)
+        n = payload
+        while n["k"] in ("ref",) or (n["k"] == "mcall" and n["name"] == "clone" and not n["args"]):
+            n = n["e"] if n["k"] == "ref" else n["recv"]
+        if n["k"] != "var" or not self._bound_by_match_arm(f, ctx, n):
+            n = ctx.origin_node(payload)
         if n["k"] == "ctor" and n["path"].rsplit("::", 1)[0] == enum["path"]:
             return {n["path"].rsplit("::", 1)[-1]}
         if n["k"] == "var":
@@ -635,6 +640,18 @@ class PanicAnalysis:
                             if all(sp["k"] in ("pwild", "pbind") and "sub" not in sp for sp in ap.get("pats", [])):
                                 covered.add(ap["path"].rsplit("::", 1)[-1])
         return allv
+
+    def _bound_by_match_arm(self, f, ctx, var):
+        d = ctx.defs.get(var["id"])
+        if not d:
+            return False
+        pat = d[2]
+        for m in f.nodes():
+            if m["k"] == "match":
+                for arm in m["arms"]:
+                    if arm["pat"] is pat or any(p is pat for p in ir.walk(arm["pat"])):
+                        return True
+        return False
 
     # ---- SER: bincode::serialize(..).expect
     def _ser_rule(self, s):
@@ -898,6 +915,199 @@ class PanicAnalysis:
                         facts.append(ctx.formula(body))
         return And(*facts)
 
+    # ---- BOUND: integer interval of locals/config fields excludes the overflow; COUNT: 64-bit event counters
+    INT_BITS = {"u8": 8, "u16": 16, "u32": 32, "u64": 64, "usize": 64, "u128": 128}
+
+    def _var_writes(self, f, vid):
+        """(init nodes, assign nodes) of a local variable; None if it escapes by &mut."""
+        inits, assigns = [], []
+        for x in f.nodes():
+            k = x["k"]
+            if k in ("slet", "let") and x["pat"].get("k") == "pbind" and x["pat"].get("id") == vid:
+                if "init" in x:
+                    inits.append(x["init"])
+                else:
+                    return None
+            elif k in ("assign", "assignop") and x["l"]["k"] == "var" and x["l"]["id"] == vid:
+                assigns.append(x)
+            elif k == "ref" and x.get("mut") and x["e"]["k"] == "var" and x["e"]["id"] == vid:
+                return None
+            elif k == "pbind" and x.get("id") == vid and not any(
+                    y["k"] in ("slet", "let") and y["pat"] is x for y in f.nodes()):
+                return None   # bound by a pattern other than a plain let
+        return inits, assigns
+
+    def upper_bound(self, f, n, busy=None, depth=0):
+        """A static upper bound of the unsigned integer expression n, or None."""
+        busy = busy if busy is not None else set()
+        if depth > 12 or n is None:
+            return None
+        k = n["k"]
+        if k == "lit" and "int" in (n.get("v") or {}):
+            return n["v"]["int"]
+        if k in ("ref", "cast") or (k == "un" and n.get("op") == "*"):
+            return self.upper_bound(f, n["e"], busy, depth + 1)
+        if k == "block" and not n.get("stmts") and "expr" in n:
+            return self.upper_bound(f, n["expr"], busy, depth + 1)
+        if k == "call" and n.get("fn") in ("core::cmp::min", "std::cmp::min") or (k == "mcall" and n["name"] == "min"):
+            bs = [self.upper_bound(f, a, busy, depth + 1) for a in call_args(n)]
+            bs = [b for b in bs if b is not None]
+            return min(bs) if bs else None
+        if k == "call" and n.get("fn") in ("core::cmp::max", "std::cmp::max"):
+            bs = [self.upper_bound(f, a, busy, depth + 1) for a in n["args"]]
+            return None if any(b is None for b in bs) else max(bs)
+        if k == "bin" and n["op"] in ("+", "*"):
+            a = self.upper_bound(f, n["l"], busy, depth + 1)
+            b = self.upper_bound(f, n["r"], busy, depth + 1)
+            if a is None or b is None:
+                return None
+            return a + b if n["op"] == "+" else a * b
+        if k == "field":
+            of, name = n.get("of"), n["name"]
+            if of is None or self.prog.field_writes(of, name):
+                return None
+            lits = self.prog.struct_lits(of)
+            vals = []
+            for (g, lit) in lits:
+                for fl in lit["fields"]:
+                    if fl["name"] == name:
+                        vals.append(self.upper_bound(g, fl["e"], set(), depth + 1))
+                if "base" in lit:
+                    return None
+            if not vals or any(v is None for v in vals):
+                return None
+            return max(vals)
+        if k == "var":
+            vid = n["id"]
+            if vid in busy:
+                return None
+            w = self._var_writes(f, vid)
+            if w is None:
+                return None
+            inits, assigns = w
+            if not inits:
+                return None
+            busy = busy | {vid}
+            vals = []
+            for i in inits:
+                vals.append(self.upper_bound(f, i, busy, depth + 1))
+            for a in assigns:
+                if a["k"] != "assign":
+                    return None
+                vals.append(self.upper_bound(f, a["r"], busy, depth + 1))
+            if any(v is None for v in vals):
+                return None
+            return max(vals)
+        return None
+
+    def _bound_rule(self, s):
+        n = s.node
+        f = s.fn
+        if s.kind != "assert" or not s.what.startswith("Overflow("):
+            return None
+        op = s.what[len("Overflow("):-1]
+        ty = peel_ty((n["l"].get("ty") if n["k"] in ("bin", "assignop") else None) or "")
+        bits = self.INT_BITS.get(ty)
+        if bits is None:
+            return None
+        # COUNT: `x += 1` / `x -= ..` on a 64-bit local whose only writes are literal inits and +=/-= literals
+        if n["k"] == "assignop" and op == "Add" and n["l"]["k"] == "var" and bits >= 64 \
+                and n["r"]["k"] == "lit" and n["r"]["v"].get("int") == 1:
+            w = self._var_writes(f, n["l"]["id"])
+            if w is not None:
+                inits, assigns = w
+                ok = all(i["k"] == "lit" for i in inits) and all(
+                    a["k"] == "assignop" and a["r"]["k"] == "lit" and a["op"].rstrip("=") in ("+", "-") for a in assigns)
+                if ok:
+                    return ("COUNT", "%d-bit local event counter incremented by 1 per loop iteration: overflow needs 2^%d events" % (bits, bits))
+        if op in ("Add", "Mul") and n["k"] == "bin":
+            a = self.upper_bound(f, n["l"])
+            b = self.upper_bound(f, n["r"])
+            if a is not None and b is not None:
+                v = a + b if op == "Add" else a * b
+                if v < (1 << bits):
+                    return ("BOUND", "operands statically bounded by %d and %d: result <= %d < 2^%d" % (a, b, v, bits))
+        return None
+
+    # ---- PROLOGUE: executed at most once per start-up task before its main loop and before any input is read
+    def startup_fns(self):
+        if not hasattr(self, "_startup"):
+            prog = self.prog
+            seen = set()
+            stack = [p for p in ("node::node::Node::new", "node::main", "node::run") if p in prog.fns]
+            while stack:
+                p = stack.pop()
+                if p in seen:
+                    continue
+                seen.add(p)
+                g = prog.fns.get(p)
+                if g is None:
+                    continue
+                for x in self.W.own_nodes(g):
+                    if x["k"] in ("call", "mcall", "fnref") and "fn" in x:
+                        for q in callee_paths(x):
+                            if q in prog.fns:
+                                stack.append(q)
+            self._startup = seen
+        return self._startup
+
+    INPUT_READS = ("recv", "accept", "next", "read", "read_exact", "notify_read", "try_recv")
+
+    def _prologue_pos(self, f, node):
+        """node is evaluated at most once per activation of f's body / spawn closure and before any input read.
+        Returns ('closure', spawn_closure) / ('fn', None) / None."""
+        where = ("fn", None)
+        for a in f.ancestors(node):
+            k = a["k"]
+            if k in ("loop", "while", "for", "select"):
+                return None
+            if k == "closure":
+                pm = f.parents()
+                par = pm.get(id(a))
+                if par is not None and par["k"] == "call" and par.get("fn") == SPAWN:
+                    where = ("closure", a)
+                    break
+                if a.get("ck") == "async":
+                    continue
+                return None
+        flow = self.env.flow(f)
+        for d in flow.dominators(node):
+            if d["k"] == "mcall" and d["name"] in self.INPUT_READS and d is not node:
+                if where[0] == "closure" and not any(x is d for x in ir.walk(where[1])):
+                    continue
+                return None
+        return where
+
+    def _prologue_ctx(self, f, node, depth=0):
+        if depth > 4:
+            return None
+        pos = self._prologue_pos(f, node)
+        if pos is None:
+            return None
+        if pos[0] == "closure":
+            if f.path in self.startup_fns():
+                return "start of the task spawned by start-up function %s" % f.path
+            return None
+        if f.path in self.startup_fns() and not self.W.actors_executing(f):
+            return "start-up function %s" % f.path
+        sites = self.prog.calls_to(f.path)
+        sites = [(g, c) for (g, c) in sites if not g.derived]
+        if not sites:
+            return None
+        why = None
+        for (g, c) in sites:
+            why = self._prologue_ctx(g, c, depth + 1)
+            if why is None:
+                return None
+        return "%s <- %s" % (f.name, why)
+
+    def _prologue_rule(self, s):
+        why = self._prologue_ctx(s.fn, s.node)
+        if why is None:
+            return None
+        return ("ENV", "task prologue: runs once before the task's main loop and before it reads any input (%s); operands are "
+                       "start-up parameters" % why)
+
     # ---- ENV: semantic environment/config rules
     def _env_rule(self, s):
         n = s.node
@@ -918,6 +1128,9 @@ class PanicAnalysis:
                 return ("ENV", "RocksDB I/O error (disk fault), not network input")
             if rty.startswith("core::result::Result<") and "std::io::error::Error" in rty and rr["k"] == "mcall" and rr["name"] == "bind":
                 return ("ENV", "TCP bind at start of the accept task")
+        if self.config_fn(f):
+            return ("ENV", "%s reads only immutable start-up configuration (fields never written after construction, no "
+                           "parameters): its value and any panic are independent of network input" % f.path)
         if s.kind == "timeadd":
             if self.config_only(f, n):
                 return ("ENV", "Instant + Duration built from constants/immutable configuration")
@@ -938,7 +1151,18 @@ class PanicAnalysis:
             return True
         return False
 
-    def config_only(self, f, n):
+    def config_fn(self, f):
+        """f takes only `self`, and its whole body is config_only."""
+        ps = [p for p in f.params if not (p["k"] == "pbind" and p["name"] in ("self", "__self"))]
+        if ps or not f.params:
+            return False
+        memo = self.__dict__.setdefault("_config_fn", {})
+        if f.path not in memo:
+            memo[f.path] = False
+            memo[f.path] = self.config_only(f, f.body, allow_cparams=True)
+        return memo[f.path]
+
+    def config_only(self, f, n, allow_cparams=False):
         dw = self.env.direct_writes()
         written = set()
         for s in dw.values():
@@ -950,12 +1174,19 @@ class PanicAnalysis:
                     continue
                 if d and d[0][0] == "expr":
                     continue
+                if allow_cparams and d and d[0][0] == "cparam":
+                    continue   # closure parameter of an adaptor over a config-only receiver (checked as a whole)
+                return False
+            if x["k"] in ("assign", "assignop"):
                 return False
             if x["k"] == "field":
                 if (x.get("of"), x["name"]) in written:
                     return False
-            if x["k"] in ("mcall", "call") and any(p in self.prog.fns for p in callee_paths(x)):
-                return False
+            if x["k"] in ("mcall", "call"):
+                for p in callee_paths(x):
+                    g = self.prog.fns.get(p)
+                    if g is not None and not (allow_cparams and g is not f and self.config_fn(g)):
+                        return False
         return True
 
     # ---- AUTH: operand authenticated by another property's rule (table in rules/auth.toml)
